@@ -75,10 +75,12 @@ fn find_mut(log: &mut Log, t: &mut T, q: (i64, i64)) {
 
 /// replace the tree by a copy of itself (clone / serde round trip / clone_from into a used tree)
 fn copy(log: &mut Log, t: &mut T, how: u64) -> bool {
+    let mut eq = 1u8;
     let r = log.call("copy", json!({"how": how % 3}), || {
         match how % 3 {
             0 => {
                 let c = t.clone();
+                eq = (c == *t) as u8;
                 *t = c;
             }
             1 => {
@@ -93,7 +95,7 @@ fn copy(log: &mut Log, t: &mut T, how: u64) -> bool {
                 *t = other;
             }
         }
-        json!({"has_shape": 1, "shape": shape_json(t)})
+        json!({"has_shape": 1, "shape": shape_json(t), "eq": eq})
     });
     r["st"] == "ok"
 }
